@@ -473,3 +473,59 @@ pub fn family_inputs(ctx: &mut Ctx) -> Vec<String> {
     ctx.transitions(edges);
     inp
 }
+
+/// SCALE programs of the string family: many variants, long spellings with long common prefixes, long
+/// non-ASCII spellings, multi-word identifiers (appended to the deviation-bounded program space)
+pub fn scale_specs() -> Vec<(EnumSpec, String)> {
+    let mut out = Vec::new();
+    // S1: 40 variants, mixed attributes
+    let mut s1 = EnumSpec::base(0);
+    for i in 0..40usize {
+        let mut v = VariantSpec::unit(&format!("Variant{}OfTheLargeEnumNumber{}", (b'A' + (i % 26) as u8) as char, i));
+        if i % 5 == 1 {
+            v.serialize = vec![format!("spelling-number-{:02}-of-the-large-enum", i), format!("s{}", i)];
+        }
+        if i % 7 == 3 {
+            v.aci = Some(Aci::Bare);
+        }
+        if i % 11 == 5 {
+            v.to_string = Some(format!("ToString{}", "x".repeat(i)));
+        }
+        if i == 19 {
+            v.disabled = true;
+        }
+        if i % 13 == 6 {
+            v.kind = Kind::Tuple(vec![FieldTy::U8, FieldTy::Bool, FieldTy::I32, FieldTy::OptU8, FieldTy::Arr2]);
+        }
+        s1.variants.push(v);
+    }
+    out.push((s1.clone(), "SCALE S1: 40 variants, long identifiers and spellings".to_string()));
+    let mut s1s = s1.clone();
+    s1s.serialize_all = Some("SCREAMING-KEBAB-CASE".into());
+    out.push((s1s, "SCALE S1 under SCREAMING-KEBAB-CASE".to_string()));
+    let mut s1c = s1;
+    s1c.aci = true;
+    s1c.serialize_all = Some("snake_case".into());
+    out.push((s1c, "SCALE S1 case-insensitive under snake_case".to_string()));
+    // S2: long spellings around power-of-two lengths with a long common prefix, differing only at the end
+    for ci in [false, true] {
+        let mut s2 = EnumSpec::base(0);
+        s2.aci = ci;
+        for (j, len) in [15usize, 16, 17, 31, 32, 33, 63, 64, 65, 129].iter().enumerate() {
+            let mut v = VariantSpec::unit(&format!("L{}", len));
+            let mut sp = "Abcdefgh".repeat(len / 8 + 1);
+            sp.truncate(len - 1);
+            sp.push((b'a' + j as u8) as char);
+            v.serialize = vec![sp];
+            s2.variants.push(v);
+        }
+        let mut v = VariantSpec::unit("LongNonAscii");
+        v.serialize = vec![format!("{}Z", "é".repeat(20))];
+        s2.variants.push(v);
+        let mut v = VariantSpec::unit("SamePrefixA");
+        v.serialize = vec![format!("{}a", "Abcdefgh".repeat(4))];
+        s2.variants.push(v);
+        out.push((s2, format!("SCALE S2: spellings of length 15..129 with a common prefix{}", if ci { ", case-insensitive" } else { "" })));
+    }
+    out
+}
